@@ -19,6 +19,11 @@ import Gribi.Gen.DeleteIPv6
 import Gribi.Gen.DeleteMPLS
 import Gribi.Gen.DeleteNextHopGroup
 import Gribi.Gen.DeleteNextHop
+import Gribi.Gen.LocklessDeleteIPv4
+import Gribi.Gen.LocklessDeleteIPv6
+import Gribi.Gen.LocklessDeleteMPLS
+import Gribi.Gen.LocklessDeleteNHG
+import Gribi.Gen.LocklessDeleteNH
 namespace Gribi.GenEquiv.RibTable
 open Gribi Gribi.Gen
 
@@ -230,10 +235,65 @@ theorem gen_deleteNextHop (e : Option NHEntryC) (rr installed : Option Unit) (ke
   cases e <;> cases rr <;> cases keyErr <;> cases checkFn <;> cases checkErr <;> cases checkOk <;> cases hook <;> cases isUint <;>
     simp [deleteNextHop.join1] <;> (split <;> simp_all)
 
+
+/-! ### the lockless deletes `Flush` uses -/
+
+/-- the common shape: a key that is not in the table is an error and nothing changes; otherwise
+(for a group: one next-hop decrement per member first) the key is removed from the table, and
+*then* the post-change hook is called, once, with the entry that was removed -/
+def locklessSpec {κ : Type} [DecidableEq κ] (kind : Nat) (members : Bool) (key : κ) (hook : Option Unit) (name : String)
+    (tbl : Map κ TblEntry) : Option Status × Map κ TblEntry × List Eff :=
+  match Map.get? tbl key with
+  | none => (some ⟨.Unknown, .none⟩, tbl, [])
+  | some e =>
+    (none, Map.erase tbl key,
+      (if members then e.NextHop.map (fun m => Eff.decNHRef name m.Key) else []) ++ [Eff.tableDel kind] ++
+        (if hook.isSome then [Eff.postHookTbl constants_Delete name (some e)] else []))
+
+theorem gen_locklessDeleteIPv4 (key : String) (hook : Option Unit) (name : String) (now : Int) (tbl : Map String TblEntry) :
+    Gen.locklessDeleteIPv4 key hook name now tbl = locklessSpec 4 false key hook name tbl := by
+  unfold Gen.locklessDeleteIPv4 locklessSpec
+  cases h : Map.get? tbl key <;> cases hook <;> simp
+
+theorem gen_locklessDeleteIPv6 (key : String) (hook : Option Unit) (name : String) (now : Int) (tbl : Map String TblEntry) :
+    Gen.locklessDeleteIPv6 key hook name now tbl = locklessSpec 6 false key hook name tbl := by
+  unfold Gen.locklessDeleteIPv6 locklessSpec
+  cases h : Map.get? tbl key <;> cases hook <;> simp
+
+theorem gen_locklessDeleteMPLS (key : Nat) (hook : Option Unit) (name : String) (now : Int) (tbl : Map Nat TblEntry) :
+    Gen.locklessDeleteMPLS key hook name now tbl = locklessSpec 1 false key hook name tbl := by
+  unfold Gen.locklessDeleteMPLS locklessSpec
+  cases h : Map.get? tbl key <;> cases hook <;> simp
+
+theorem gen_locklessDeleteNH (key : Nat) (hook : Option Unit) (name : String) (now : Int) (tbl : Map Nat TblEntry) :
+    Gen.locklessDeleteNH key hook name now tbl = locklessSpec 3 false key hook name tbl := by
+  unfold Gen.locklessDeleteNH locklessSpec
+  cases h : Map.get? tbl key <;> cases hook <;> simp
+
+theorem locklessNHG_loop (key : Nat) (hook : Option Unit) (name : String) (tbl : Map Nat TblEntry) :
+    ∀ (l : List OrigNHGMember) (effs : List Eff),
+      locklessDeleteNHG.loop1 key hook name tbl l effs =
+        (none, Map.erase tbl key, effs ++ l.map (fun m => Eff.decNHRef name m.Key) ++ [Eff.tableDel 2] ++
+          (if hook.isSome then [Eff.postHookTbl constants_Delete name (Map.get? tbl key)] else [])) := by
+  intro l
+  induction l with
+  | nil => intro effs; unfold locklessDeleteNHG.loop1; cases hook <;> simp
+  | cons m t ih => intro effs; unfold locklessDeleteNHG.loop1; simp [ih]
+
+theorem gen_locklessDeleteNHG (key : Nat) (hook : Option Unit) (name : String) (now : Int) (tbl : Map Nat TblEntry) :
+    Gen.locklessDeleteNHG key hook name now tbl = locklessSpec 2 true key hook name tbl := by
+  unfold Gen.locklessDeleteNHG locklessSpec
+  cases h : Map.get? tbl key with
+  | none => simp
+  | some e => simp [locklessNHG_loop, h]
+
 theorem gen_ribtable_translated :
     Gen.addIPv4_problem = none ∧ Gen.addIPv6_problem = none ∧ Gen.addMPLS_problem = none ∧
     Gen.addNextHopGroup_problem = none ∧ Gen.addNextHop_problem = none ∧
     Gen.deleteIPv4_problem = none ∧ Gen.deleteIPv6_problem = none ∧ Gen.deleteMPLS_problem = none ∧
-    Gen.deleteNextHopGroup_problem = none ∧ Gen.deleteNextHop_problem = none := ⟨rfl, rfl, rfl, rfl, rfl, rfl, rfl, rfl, rfl, rfl⟩
+    Gen.deleteNextHopGroup_problem = none ∧ Gen.deleteNextHop_problem = none ∧
+    Gen.locklessDeleteIPv4_problem = none ∧ Gen.locklessDeleteIPv6_problem = none ∧ Gen.locklessDeleteMPLS_problem = none ∧
+    Gen.locklessDeleteNHG_problem = none ∧ Gen.locklessDeleteNH_problem = none :=
+  ⟨rfl, rfl, rfl, rfl, rfl, rfl, rfl, rfl, rfl, rfl, rfl, rfl, rfl, rfl, rfl⟩
 
 end Gribi.GenEquiv.RibTable
